@@ -306,21 +306,34 @@ def check_division(ctx: Ctx, res: RuleResult, f: Func, node: ast.AST, divisor: a
     if path is None:
         res.add(f, node, oblig, True)
         return
-    # no local guard: look one level up when the base depends on parameters only
-    callers = ctx.cg.callers(f)
-    if _only_params(base) and callers:
-        bad = None
-        for caller, call in callers:
+    # no local guard: look up the call chains (at most three levels) while the base depends on parameters only
+    def unguarded_chain(g: Func, gbase: Term, depth: int):
+        """None when every caller chain passes a guard; else (caller, call, base there, path)."""
+        callers_ = ctx.cg.callers(g)
+        if not callers_ or not _only_params(gbase):
+            return (g, None, gbase, None)
+        for caller, call in callers_:
             cterm = ctx.X.at(caller, call)
-            mapping = bind_args(f, cterm, bound=_is_bound_call(cterm, f))
-            cbase = _subst_params(base, mapping)
+            mapping = bind_args(g, cterm, bound=_is_bound_call(cterm, g))
+            cbase = _nrm(_subst_params(gbase, mapping))
             cnodes = cfg_of(ctx.repo, caller).node_containing(call)
             if not cnodes:
                 continue
             p2 = _unguarded_path(ctx, caller, cnodes[0], cbase, zero_at)
-            if p2 is not None:
-                bad = (caller, call, cbase, p2)
-                break
+            if p2 is None:
+                continue
+            if depth < 3 and _only_params(cbase) and all(s_[1] == caller.qualname for s_ in subterms(cbase) if s_[0] == "param") and ctx.cg.callers(caller):
+                up = unguarded_chain(caller, cbase, depth + 1)
+                if up is None:
+                    continue
+                if up[1] is not None:
+                    return up
+            return (caller, call, cbase, p2)
+        return None
+
+    callers = ctx.cg.callers(f)
+    if _only_params(base) and callers:
+        bad = unguarded_chain(f, base, 1)
         if bad is None:
             res.add(f, node, oblig + " (guard found in every caller)", True)
             return
@@ -328,9 +341,9 @@ def check_division(ctx: Ctx, res: RuleResult, f: Func, node: ast.AST, divisor: a
         res.add(
             f, node, oblig, False,
             f"`{show(base, 90)}` can be {zero_at:g} here: no guard in this function, and caller "
-            f"{caller.qualname} (line {call.lineno}) reaches the call without a guard on `{show(cbase, 90)}` "
+            f"{caller.qualname} (line {call.lineno if call is not None else '?'}) reaches the call without a guard on `{show(cbase, 90)}` "
             "(ZeroDivisionError instead of an exit code)",
-            describe_path(caller, p2),
+            describe_path(caller, p2) if p2 is not None else [],
         )
         return
     res.add(
